@@ -515,6 +515,8 @@ def run(chk: Check) -> int:
                 "opts (the layout strat with its functions decorated under the options that change the wrapping path: " + ", ".join(OPT_LAYOUTS) + " - upper=True, "
                 "lock=True, protected=False, time_condition=1s with bodies taking 0 / 1 / 1.125 / 2 s; histories from the strat and refresh generators and "
                 "directed simple-decorator cases), newline (layout nl: keys and tags containing line breaks, random and recreate histories), "
+                "latereg (layout late: register_tag calls as history events - a family of keys is used before its tag is registered, then reg, tagged write, "
+                "explicit removal, untagged re-creation, delete_tags), "
                 "refresh (a decorated call, time up to the window in which the decorator RE-WRITES the live entry - early: past early_ttl, soft: past soft_ttl, "
                 "hit / dynamic: update_after hits or more than cache_hits -, one to three re-writes with the same or another ttl, then time to around the "
                 "ORIGINAL deadline and the re-write's deadline, delete_tags of a tag of the call, probes and a further call; companions under the same tag "
